@@ -63,6 +63,10 @@ def gen_signal(st, n):
 
 def gen_snr(st, n, vals):
     spec, exp, text = _gen_snr(st, n, vals)
+    if "db" in spec and st.coin(1, 5, "flag-as-numpy-bool"):
+        # a flag taken from an array, a comparison or a DataFrame cell is numpy.bool_, not the singleton True/False
+        spec["db_numpy"] = True
+        text += f", snr_in_db=numpy.bool_({spec['db']})"
     if spec["snr"] is not None and st.coin(1, 4, "std-given-as-well"):
         # "the given std when NO snr is given": next to an snr, a std argument must not matter
         spec["std"] = st.pick((0.5, 2.0, 10.0, 0.0, 1.0), "ignored-std")
@@ -104,8 +108,8 @@ def call_noise(via, signal, spec, x=None):
     process = importlib.import_module("traffic_weaver.process")
     weaver = importlib.import_module("traffic_weaver.weaver")
     kw = {}
-    if "db" in spec and (spec["db"] is False or via.endswith("explicit")):
-        kw["snr_in_db"] = spec["db"]
+    if "db" in spec and (spec["db"] is False or via.endswith("explicit") or spec.get("db_numpy")):
+        kw["snr_in_db"] = np.bool_(spec["db"]) if spec.get("db_numpy") else spec["db"]
     if "std" in spec:
         kw["std"] = spec["std"]
     if via.startswith("process"):
